@@ -89,7 +89,7 @@ class ConvertScalarValueSpec(FunctionSpec):
     """simple quantity: to_unit == unit ⇒ result is value; else result = conv(unit → resolved to_unit)(value),
     the cached _tobase being the registered to-base function (QI)."""
 
-    probe = "db_lookup"
+    probe = "scalar_getvalue"
 
     fq = Q_MOD + ":Quantity.ConvertScalarValue"
     props = ("C02", "C05", "C12")
